@@ -881,7 +881,7 @@ type smtPrinter struct {
 	funs    map[string]bool
 	nq      int
 	relaxed bool
-	side    []string // side conditions of the relaxed float model (no overflow, no division by zero): proved with the goal
+	side    []string           // side conditions of the relaxed float model (no overflow, no division by zero): proved with the goal
 	opSide  map[*Term][]string // per float operation
 	nfp     int
 }
